@@ -2,4 +2,5 @@ CONSTANTS
   Depth = 7
   AllVias = TRUE
   Prune = TRUE
+  PruneLast = FALSE
 SPECIFICATION Spec
